@@ -403,6 +403,86 @@ int main(int argc, char** argv) {
             } catch (const std::exception& e) { log.fail(key, std::string("threw: ") + e.what()); }
             ++nfiles;
         }
+
+        // base-run chaining in general: random restart step, several ministeps per report step, a
+        // chain of two restarts (C restarts from B, which restarted from A), read by the legacy reader
+        // (SMSPEC) and by the ESMRY reader from ESMRY files written the way the simulator writes them
+        {
+            int nchains = tier == "thorough" ? 30 : 6;
+            for (int c = 0; c < nchains; ++c) {
+                cleanDir(tmp);
+                const int nvec = rng.pick(std::vector<int>{ 2, 5, 1001 });
+                const bool nested = c % 2 == 1;
+                std::string key = std::string("bin.chain.") + (nested ? "nested" : "single") + ".nvec" + std::to_string(nvec);
+                try {
+                    OutputStream::ResultSet A{ tmp, "RUNA" }, B{ tmp, "RUNB" }, C{ tmp, "RUNC" };
+                    int nA = rng.range(3, 6), rAB = rng.range(1, nA - 1);
+                    auto msA = makeSteps(rng, nvec, nA, 1, 0.0);
+                    double tAB = 0; for (auto& m : msA) if (m.seq <= rAB) tAB = m.params[0];
+                    int nB = rng.range(2, 5);
+                    auto msB = makeSteps(rng, nvec, nB, rAB + 1, tAB);
+                    writeRun(A, false, true, nvec, msA, { "", -1 });
+                    // every other chain: run B lists its well vectors in reverse order (column p of B
+                    // holds well nvec-p); the series of one well must still be A's history followed by B's
+                    const bool permuted = !nested && nvec > 2 && (c % 4 == 0);
+                    if (permuted) {
+                        SMSpec::Parameters prm; prm.add("TIME", ":+:+:+:+", 0, "DAYS");
+                        for (int i = 1; i < nvec; ++i) prm.add("WBHP", keyOf(nvec - i), 0, "BARSA");
+                        writeRunP(B, false, true, prm, { 10, 10, 3 }, msB, { "RUNA", rAB });
+                    } else
+                    writeRun(B, false, true, nvec, msB, { "RUNA", rAB });
+                    std::vector<float> want; for (auto& m : msA) if (m.seq <= rAB) want.push_back(m.params[0]);
+                    std::vector<float> wantW; if (permuted) { for (auto& m : msA) if (m.seq <= rAB) wantW.push_back(m.params[1]); for (auto& m : msB) wantW.push_back(m.params[nvec - 1]); }
+                    std::string last = "RUNB";
+                    std::vector<Mini> msC; int rBC = 0;
+                    if (nested) {
+                        rBC = rng.range(rAB + 1, rAB + nB - 1);
+                        double tBC = 0; for (auto& m : msB) if (m.seq <= rBC) { want.push_back(m.params[0]); tBC = m.params[0]; }
+                        msC = makeSteps(rng, nvec, rng.range(1, 3), rBC + 1, tBC);
+                        writeRun(C, false, true, nvec, msC, { "RUNB", rBC });
+                        for (auto& m : msC) want.push_back(m.params[0]);
+                        last = "RUNC";
+                    } else for (auto& m : msB) want.push_back(m.params[0]);
+                    const std::string info = " (A: " + std::to_string(nA) + " report steps, B restarts at " + std::to_string(rAB) + " with " + std::to_string(nB) + " steps" + (nested ? ", C restarts at " + std::to_string(rBC) : std::string()) + ")";
+                    auto cmp = [&](const std::vector<float>& v, const std::string& reader) {
+                        if (v.size() != want.size()) { log.fail(key + "." + reader, "TIME series length " + std::to_string(v.size()) + " expected " + std::to_string(want.size()) + info); return; }
+                        for (size_t t = 0; t < want.size(); ++t) if (std::memcmp(&want[t], &v[t], 4) != 0) { log.fail(key + "." + reader, "ministep " + std::to_string(t) + " TIME " + std::to_string(v[t]) + " expected " + std::to_string(want[t]) + info); return; }
+                        log.ok();
+                    };
+                    { ESmry es(tmp + "/" + last + ".SMSPEC", true); es.loadData(); cmp(es.get("TIME"), "esmry"); }
+                    // a vector list naming the same vector twice
+                    { ESmry es(tmp + "/" + last + ".SMSPEC", true); es.loadData({ "TIME", "TIME" }); cmp(es.get("TIME"), "esmry.duplicate-name"); }
+                    if (permuted) {
+                        auto cmpW = [&](const std::vector<float>& v, const std::string& reader) {
+                            if (v.size() != wantW.size()) { log.fail(key + ".permuted." + reader, "series length " + std::to_string(v.size()) + " expected " + std::to_string(wantW.size()) + info); return; }
+                            for (size_t t = 0; t < wantW.size(); ++t) if (std::memcmp(&wantW[t], &v[t], 4) != 0) { log.fail(key + ".permuted." + reader, "WBHP:" + keyOf(1) + " ministep " + std::to_string(t) + " is " + std::to_string(v[t]) + " expected " + std::to_string(wantW[t]) + info); return; }
+                            log.ok();
+                        };
+                        { ESmry es(tmp + "/RUNB.SMSPEC", true); es.loadData(); cmpW(es.get("WBHP:" + keyOf(1)), "esmry.whole"); }
+                        { ESmry es(tmp + "/RUNB.SMSPEC", true); cmpW(es.get("WBHP:" + keyOf(1)), "esmry.vector"); }
+                    }
+                    // ESMRY files as the simulator writes them (ExtSmryOutput: RESTART / RSTNUM from the deck's
+                    // RESTART keyword; RSTEP = 1 on the ministep that completes a report step)
+                    auto writeEsmry = [&](const std::string& name, const std::vector<Mini>& ms, const std::string& base, int step) {
+                        std::string deckPath = tmp + "/" + name + ".DATA";
+                        if (!base.empty()) { EclOutput rf(tmp + "/" + base + ".UNRST", false, std::ios::out); rf.write("SEQNUM", std::vector<int>{ step }); }
+                        vh::spit(deckPath, "RUNSPEC\nDIMENS\n 2 2 1 /\nOIL\nWATER\nUNIFIN\nUNIFOUT\nSTART\n 1 JAN 2020 /\nGRID\nDX\n 4*10 /\nDY\n 4*10 /\nDZ\n 4*10 /\nTOPS\n 4*1000 /\nPORO\n 4*0.3 /\nPERMX\n 4*100 /\nPROPS\nSOLUTION\n"
+                                 + (base.empty() ? std::string() : "RESTART\n '" + base + "' " + std::to_string(step) + " /\n") + "SCHEDULE\n");
+                        Opm::Parser parser; auto deck = parser.parseFile(deckPath);
+                        Opm::EclipseState es(deck);
+                        std::vector<std::string> keys = { "TIME" }, units = { "DAYS" };
+                        for (int k = 1; k < nvec; ++k) { keys.push_back("WBHP:" + keyOf(k)); units.push_back("BARSA"); }
+                        ExtSmryOutput out(keys, units, es, 1577836800);
+                        for (size_t i = 0; i < ms.size(); ++i) out.write(ms[i].params, (i + 1 == ms.size() || ms[i + 1].seq != ms[i].seq) ? 1 : 0, i + 1 == ms.size());
+                    };
+                    writeEsmry("RUNA", msA, "", 0);
+                    writeEsmry("RUNB", msB, "RUNA", rAB);
+                    if (nested) writeEsmry("RUNC", msC, "RUNB", rBC);
+                    { ExtESmry ex(tmp + "/" + last + ".ESMRY", true); ex.loadData(); cmp(ex.get("TIME"), "extesmry"); }
+                } catch (const std::exception& e) { log.fail(key, std::string("threw: ") + e.what()); }
+                ++nfiles;
+            }
+        }
         std::ofstream st(outdir + "/prop_stats.json");
         st << "{\n  \"checked\": " << log.checked << ",\n  \"failed\": " << log.failed << ",\n  \"runs\": " << nfiles << "\n}\n";
         return 0;
